@@ -48,8 +48,7 @@ def flagsets(tier):
         dict(standardize=True),
         dict(center=False),
     ]
-    if tier == "thorough":
-        base += [dict(standardize=True, center=False)]
+    base += [dict(standardize=True, center=False)]
     return base
 
 
